@@ -521,6 +521,169 @@ fn run_small<A: Alphabet>(alpha: &'static str, ctx: &mut Ctx, rep: &mut Report, 
     }
 }
 
+// ---------------------------------------------------------------------------
+// `reuse`: histories on ONE StripedSequence and ONE StripedScores buffer
+// ---------------------------------------------------------------------------
+
+use crate::cfgs::{HOp, HSnap};
+
+const REUSE_LENS: [usize; 4] = [70, 100, 120, 0];
+const REUSE_WIDTHS: [usize; 3] = [1, 3, 8];
+
+fn reuse_seq(k: usize) -> Vec<u8> {
+    let l = REUSE_LENS[k];
+    (0..l).map(|i| if i % 23 == 22 { 4 } else { ((i * i + 3 * i * (k + 1) + k) % 4) as u8 }).collect()
+}
+
+fn reuse_ops() -> Vec<HOp> {
+    let mut v = Vec::new();
+    for k in 0..REUSE_LENS.len() {
+        v.push(HOp::Stripe(k));
+    }
+    for j in 0..REUSE_WIDTHS.len() {
+        v.push(HOp::Configure(j));
+    }
+    for j in 0..REUSE_WIDTHS.len() {
+        v.push(HOp::Score(j));
+    }
+    v.push(HOp::ScoreRows(1));
+    v
+}
+
+fn hop_json(o: HOp) -> Value {
+    match o {
+        HOp::Stripe(k) => json!(["stripe_into", k, format!("sequence #{} (L={})", k, REUSE_LENS[k])]),
+        HOp::Configure(j) => json!(["configure", j, format!("motif of width {}", REUSE_WIDTHS[j])]),
+        HOp::Score(j) => json!(["configure+score_into", j, format!("motif of width {}", REUSE_WIDTHS[j])]),
+        HOp::ScoreRows(j) => json!(["configure+score_rows_into(1..R)", j, format!("motif of width {}", REUSE_WIDTHS[j])]),
+    }
+}
+
+fn hop_from_json(v: &Value) -> HOp {
+    let i = v[1].as_u64().unwrap() as usize;
+    match v[0].as_str().unwrap() {
+        "stripe_into" => HOp::Stripe(i),
+        "configure" => HOp::Configure(i),
+        "configure+score_into" => HOp::Score(i),
+        _ => HOp::ScoreRows(i),
+    }
+}
+
+fn reuse_json(cfg: Cfg, hist: &[HOp]) -> Value {
+    json!({
+        "kind": "reuse",
+        "cfg": cfg.name(),
+        "initial": format!("StripedSequence = stripe(sequence #0, L={}), StripedScores::empty()", REUSE_LENS[0]),
+        "ops": hist.iter().map(|&o| hop_json(o)).collect::<Vec<_>>(),
+        "sequences": (0..REUSE_LENS.len()).map(|k| model::ranks_to_text(model::DNA_LETTERS, &reuse_seq(k))).collect::<Vec<_>>(),
+        "matrices": "window-encoding matrices make_matrix(\"enc\", M, 5, 0) for M in [1, 3, 8]",
+    })
+}
+
+/// Judge the snapshot left by the last operation of a history.
+fn judge_reuse(snap: &HSnap, seqs: &[Vec<u8>], mats: &[Vec<Vec<f32>>], c: usize) -> Option<(String, String)> {
+    let seq = &seqs[snap.seq];
+    let matrix = &mats[snap.motif];
+    let (l, m) = (seq.len(), matrix.len());
+    let valid = if l >= m { l - m + 1 } else { 0 };
+    let r = model::stripe_rows(l, c);
+    if snap.seq_rows != r {
+        return Some(("seq rows".into(), format!("the reused striped sequence has {} sequence rows, expected {} (L={})", snap.seq_rows, r, l)));
+    }
+    let want_rows = if valid == 0 || snap.first_row >= r { 0 } else { r - snap.first_row };
+    if snap.rows != want_rows {
+        return Some(("row count".into(), format!("result has {} rows, expected {} (L={}, M={}, rows {}..{})", snap.rows, want_rows, l, m, snap.first_row, r)));
+    }
+    if snap.full {
+        if snap.max_index != valid {
+            return Some(("max_index".into(), format!("the reused score buffer reports {} scored positions, expected L-M+1 = {} (L={}, M={})", snap.max_index, valid, l, m)));
+        }
+        if snap.unstriped.len() != valid || snap.iter_len != valid {
+            return Some(("length".into(), format!("unstripe() has {} values, iter() {} - expected {} (L={}, M={})", snap.unstriped.len(), snap.iter_len, valid, l, m)));
+        }
+    }
+    for rr in 0..snap.rows {
+        for col in 0..c {
+            let p = col * r + snap.first_row + rr;
+            if p < valid {
+                let got = snap.cells[rr * c + col];
+                let (ex, ab) = model::ref_score(matrix, seq, p);
+                if !model::score_ok(got, ex, ab, m) {
+                    return Some(("value".into(), format!("cell (row {}, col {}) = position {} scores {} but the exact sum is {} (L={}, M={}, R={})", rr, col, p, got, ex, l, m, r)));
+                }
+                if snap.full && snap.unstriped[p].to_bits() != got.to_bits() {
+                    return Some(("unstripe".into(), format!("position {}: unstripe()={} but the cell holds {}", p, snap.unstriped[p], got)));
+                }
+            }
+        }
+    }
+    None
+}
+
+fn check_reuse(cfg: Cfg, hist: &[HOp], seqs: &[Vec<u8>], mats: &[Vec<Vec<f32>>]) -> Option<(String, String)> {
+    let syms: Vec<Vec<<Dna as Alphabet>::Symbol>> = seqs.iter().map(|s| model::to_symbols::<Dna>(s)).collect();
+    let pssms: Vec<_> = mats.iter().map(|m| model::scoring::<Dna>(m)).collect();
+    match catch(|| cfgs::history_f32::<Dna>(cfg, &syms, &pssms, hist)) {
+        Err(p) => Some((format!("panic {}", vx_core::util::panic_class(&p)), format!("panic: {}", p))),
+        Ok(None) => None,
+        Ok(Some(snap)) => judge_reuse(&snap, seqs, mats, cfg.lanes()),
+    }
+}
+
+fn run_reuse(ctx: &mut Ctx, rep: &mut Report, base: &mut u64) {
+    let depth = if ctx.quick() { 5 } else { 6 };
+    let ops = reuse_ops();
+    rep.space(
+        "reuse",
+        &format!(
+            "histories on ONE StripedSequence and ONE StripedScores buffer (the normal way of scanning several sequences with several motifs): initial state stripe(sequence of length 70) + empty score buffer; \
+             operation alphabet ({} ops) = stripe_into a sequence of length {{70,100,120,0}} (100 and 120 give the same row count on 32 lanes), configure for a motif of width {{1,3,8}}, configure+score_into for each width, configure+score_rows_into(1..R); \
+             ALL operation sequences of length 1..={} ending in a scoring operation, each re-executed on fresh objects, under all 14 configurations (DNA, window-encoding matrices: injective in the window content, exact sums); \
+             oracle on the last operation: row count, max_index = L-M+1, unstripe/iter lengths, every valid cell = the exact sum for the CURRENT sequence and motif",
+            ops.len(),
+            depth
+        ),
+    );
+    let seqs: Vec<Vec<u8>> = (0..REUSE_LENS.len()).map(reuse_seq).collect();
+    let mats: Vec<Vec<Vec<f32>>> = REUSE_WIDTHS.iter().map(|&m| make_matrix("enc", m, 5, 0)).collect();
+    let mut states = 0u64;
+    let mut transitions = 0u64;
+    let mut stack: Vec<Vec<HOp>> = ops.iter().map(|&o| vec![o]).collect();
+    while let Some(h) = stack.pop() {
+        if h.len() < depth {
+            for &o in &ops {
+                let mut n = h.clone();
+                n.push(o);
+                stack.push(n);
+            }
+        }
+        if !matches!(h.last().unwrap(), HOp::Score(_) | HOp::ScoreRows(_)) {
+            continue;
+        }
+        let idx = *base;
+        *base += 1;
+        if !ctx.mine(idx) {
+            continue;
+        }
+        states += 1;
+        transitions += h.len() as u64;
+        for &cfg in cfgs::ALL_CFGS.iter() {
+            rep.eval_distinct(h.len() > 1);
+            if let Some((sig, msg)) = check_reuse(cfg, &h, &seqs, &mats) {
+                rep.violation(format!("C01 dna {} reuse {}", cfg.name(), sig), msg, || reuse_json(cfg, &h));
+            }
+        }
+        if h.len() == 3 && states % 40 == 1 {
+            rep.sample_space(2, || reuse_json(Cfg::DispAvx, &h));
+        }
+        if states % 256 == 0 && ctx.out_of_time() {
+            rep.cap("reuse: wall-clock cap".to_string());
+            break;
+        }
+    }
+    rep.add_states(states, transitions, transitions, depth as u64);
+}
+
 pub fn run(ctx: &mut Ctx, rep: &mut Report) {
     let mut base = 0u64;
     if ctx.wants("shapes") {
@@ -545,10 +708,24 @@ pub fn run(ctx: &mut Ctx, rep: &mut Report) {
         run_small::<Dna>("dna", ctx, rep, &mut base);
         run_small::<Protein>("protein", ctx, rep, &mut base);
     }
+    if ctx.wants("reuse") && !ctx.out_of_time() {
+        run_reuse(ctx, rep, &mut base);
+    }
 }
 
 pub fn replay(_ctx: &mut Ctx, rep: &mut Report, v: &Value) {
     rep.space("replay", "replay of one recorded case");
+    if v["kind"].as_str() == Some("reuse") {
+        let cfg = Cfg::from_name(v["cfg"].as_str().unwrap()).expect("unknown configuration");
+        let hist: Vec<HOp> = v["ops"].as_array().unwrap().iter().map(hop_from_json).collect();
+        let seqs: Vec<Vec<u8>> = (0..REUSE_LENS.len()).map(reuse_seq).collect();
+        let mats: Vec<Vec<Vec<f32>>> = REUSE_WIDTHS.iter().map(|&m| make_matrix("enc", m, 5, 0)).collect();
+        rep.eval_distinct(true);
+        if let Some((sig, msg)) = check_reuse(cfg, &hist, &seqs, &mats) {
+            rep.violation(format!("C01 dna {} reuse {}", cfg.name(), sig), msg, || reuse_json(cfg, &hist));
+        }
+        return;
+    }
     let case = Case::from_json(v);
     let cfgs_: Vec<Cfg> = match v["cfg"].as_str().and_then(Cfg::from_name) {
         // always run generic/U32 first so that a backend disagreement shows up again
